@@ -1,4 +1,5 @@
 SPECIFICATION IBSpec
+CONSTANT MaxRebuilds = 2
 CONSTANTS NDocs = 5
  Threads = {1}
 INVARIANT Deterministic
